@@ -26,6 +26,7 @@ type faultWriter struct {
 	calls   int
 	bytes   int
 	flusher bool   // present the destination through a type that also has Flush() error
+	byter   bool   // ... or through a type that also has WriteByte (io.ByteWriter), like a bufio.Writer
 	keep    bool   // record the octets accepted
 	acc     []byte // octets accepted so far (keep only)
 }
@@ -78,15 +79,35 @@ type flushingFaultWriter struct{ *faultWriter }
 
 func (flushingFaultWriter) Flush() error { return nil }
 
+// byteFaultWriter: the same destination offering WriteByte as well; a single octet handed over that way is a write
+// like any other (it can fail or come up short)
+type byteFaultWriter struct{ *faultWriter }
+
+func (w byteFaultWriter) WriteByte(b byte) error {
+	n, err := w.faultWriter.Write([]byte{b})
+	if err == nil && n < 1 {
+		return io.ErrShortWrite
+	}
+	return err
+}
+
+// present wraps fw the way the case asks for
+func present(fw *faultWriter) io.Writer {
+	switch {
+	case fw.flusher:
+		return flushingFaultWriter{fw}
+	case fw.byter:
+		return byteFaultWriter{fw}
+	}
+	return fw
+}
+
 var c15Entry = []string{"Encoder.WriteTo", "NewEncoder(w).WriteObject", "Serializer.WriteTo", "Serializer.Write(second value)",
 	"Encoder.WriteTo after a failed WriteTo on the same Encoder", "Serializer.WriteTo after a failed ToBytes on the same Serializer"}
 
 // encodeVia runs one encode entry point against w.
 func encodeVia(entry int, fw *faultWriter, v interface{}, nm map[string]string) (err error, pv interface{}, st string) {
-	var w io.Writer = fw
-	if fw.flusher {
-		w = flushingFaultWriter{fw}
-	}
+	w := present(fw)
 	pv, st = guard(func() {
 		switch entry {
 		case 0:
@@ -132,32 +153,36 @@ var c15NextBytes = []byte{0x58, 0x93, 0x04, 'n', 'e', 'x', 't', 0x97, 'T'}
 
 // followUp: one encoder (entry 1) or serializer (entry 3) on one writer; the first value runs into the fault,
 // then c15Next is written with WriteObject / Write and no Reset in between.
-func followUp(entry, k, mode int, flusher bool, v interface{}, nm map[string]string) string {
-	fw := &faultWriter{k: k, mode: mode, flusher: flusher, keep: true}
-	var w io.Writer = fw
-	if flusher {
-		w = flushingFaultWriter{fw}
-	}
-	var err2 error
-	mark := 0
-	pv, st := guard(func() {
-		if entry == 1 {
-			e := hessian.NewEncoder(w, nm)
-			e.WriteObject(v)
-			mark = len(fw.acc)
-			err2 = e.WriteObject(c15Next)
-		} else {
-			s := hessian.NewSerializer(nil, nm)
-			s.WriteTo(w, v)
-			mark = len(fw.acc)
-			err2 = s.Write(c15Next)
+func followUp(entry, k, mode int, flusher, byter bool, v interface{}, nm map[string]string) string {
+	// the next value is a small list, or nothing but a lone tag (null, an empty map): writes nobody looks at
+	// the result of
+	for _, next := range []struct {
+		v     interface{}
+		bytes []byte
+	}{{c15Next, c15NextBytes}, {nil, []byte{'N'}}, {map[string]int32{}, []byte{'N'}}} {
+		fw := &faultWriter{k: k, mode: mode, flusher: flusher, byter: byter, keep: true}
+		w := present(fw)
+		var err2 error
+		mark := 0
+		pv, st := guard(func() {
+			if entry == 1 {
+				e := hessian.NewEncoder(w, nm)
+				e.WriteObject(v)
+				mark = len(fw.acc)
+				err2 = e.WriteObject(next.v)
+			} else {
+				s := hessian.NewSerializer(nil, nm)
+				s.WriteTo(w, v)
+				mark = len(fw.acc)
+				err2 = s.Write(next.v)
+			}
+		})
+		if pv != nil {
+			return fmt.Sprintf("the next write on the same stream panicked: %v [%s]", pv, st)
 		}
-	})
-	if pv != nil {
-		return fmt.Sprintf("the next write on the same stream panicked: %v [%s]", pv, st)
-	}
-	if err2 == nil && !bytes.Equal(fw.acc[mark:], c15NextBytes) {
-		return fmt.Sprintf("the next write on the same stream returned nil although the writer received %s of its octets %s", hexClip(fw.acc[mark:], 24), hexClip(c15NextBytes, 24))
+		if err2 == nil && !bytes.Equal(fw.acc[mark:], next.bytes) {
+			return fmt.Sprintf("the next write on the same stream (%v) returned nil although the writer received %s of its octets %s", next.v, hexClip(fw.acc[mark:], 24), hexClip(next.bytes, 24))
+		}
 	}
 	return ""
 }
@@ -194,6 +219,7 @@ func TestC15(t *testing.T) {
 		c.set("value", desc)
 		entry := rapid.IntRange(0, len(c15Entry)-1).Draw(rt, "entry")
 		flusher := rapid.Bool().Draw(rt, "destinationHasFlush")
+		byter := !flusher && rapid.Bool().Draw(rt, "destinationHasWriteByte")
 		c.set("entry", c15Entry[entry])
 		// unfaulted run: count the Write calls
 		w0 := &faultWriter{}
@@ -209,7 +235,7 @@ func TestC15(t *testing.T) {
 		h := av.Hash(shape + desc)
 		for k := 1; k <= W; k++ {
 			for mode := 0; mode < c15Modes; mode++ {
-				w := &faultWriter{k: k, mode: mode, flusher: flusher}
+				w := &faultWriter{k: k, mode: mode, flusher: flusher, byter: byter}
 				err, pv, st := encodeVia(entry, w, v, copyNames(nm))
 				r.Eval()
 				if k > 1 && k < W {
@@ -228,7 +254,7 @@ func TestC15(t *testing.T) {
 				// the next value on the same stream, without a Reset (the documented continuous-write use): the call
 				// fails, or every octet of that value reached the writer
 				if entry == 1 || entry == 3 {
-					if msg := followUp(entry, k, mode, flusher, v, copyNames(nm)); msg != "" {
+					if msg := followUp(entry, k, mode, flusher, byter, v, copyNames(nm)); msg != "" {
 						c.set("k", k)
 						c.set("mode", mode)
 						failf(rt, c, "C15 %s via %s: Write call %d of %d %s (reported), then %s\n value: %s", shape, c15Entry[entry], k, W, c15ModeText[mode], msg, desc)
@@ -239,6 +265,9 @@ func TestC15(t *testing.T) {
 		}
 		r.Label("entry:" + c15Entry[entry])
 		r.Label(fmt.Sprintf("writes:%s", bucket(W)))
+		if byter {
+			r.Label("destination offers WriteByte")
+		}
 		if strings.Contains(shape, "KiB") {
 			r.Label("one leaf of more than 64 KiB")
 		}
